@@ -28,11 +28,12 @@ SeedPos == {FromJson(Seeds[i].pos) : i \in 1..Len(Seeds)}
 VARIABLES game,   \* [sp: startpos?, start, hm, fm, ms: moves played] of the last position command
           n,      \* commands issued so far
           last,   \* record describing the command just issued (printed when the state is expanded)
-          nextw   \* kind of the next command (drawn one step ahead, so that it is drawn exactly once)
-gvars == <<alive, exit, board, hist, epoch, out, game, n, last, nextw>>
+          nextw,  \* kind of the next command (drawn one step ahead, so that it is drawn exactly once)
+          older   \* the game of the position command BEFORE the current one (re-sent by "again": A, B, A)
+gvars == <<alive, exit, board, hist, epoch, out, game, n, last, nextw, older>>
 
 StartGame == [sp |-> TRUE, start |-> StartPos, hm |-> 0, fm |-> 1, ms |-> <<>>]
-GInit == UInit /\ game = StartGame /\ n = 0 /\ last = [k |-> "none"] /\ nextw = "none"
+GInit == UInit /\ game = StartGame /\ n = 0 /\ last = [k |-> "none"] /\ nextw = "none" /\ older = StartGame
 
 (* ---------------- text ---------------- *)
 RECURSIVE JoinMoves(_)
@@ -68,19 +69,19 @@ Emit(rec) == last' = rec @@ [k |-> "C", n |-> n + 1, profile |-> Profile]
 Step == n' = n + 1
 
 GenUci == /\ CmdUci(<<[t |-> "id"], [t |-> "uciok"]>>)
-          /\ Emit([kind |-> "uci", text |-> "uci"]) /\ Step /\ UNCHANGED game
+          /\ Emit([kind |-> "uci", text |-> "uci"]) /\ Step /\ UNCHANGED <<game, older>>
 GenIsReady == /\ CmdIsReady(<<[t |-> "readyok"]>>)
-              /\ Emit([kind |-> "isready", text |-> "isready"]) /\ Step /\ UNCHANGED game
+              /\ Emit([kind |-> "isready", text |-> "isready"]) /\ Step /\ UNCHANGED <<game, older>>
 GenNewGame == /\ CmdNewGame(<<>>)
-              /\ game' = StartGame
+              /\ game' = StartGame /\ UNCHANGED older
               /\ Emit([kind |-> "ucinewgame", text |-> "ucinewgame"]) /\ Step
 GenUnknown == /\ CmdUnknown(<<>>)
-              /\ Emit([kind |-> "unknown", text |-> RandomElement(UnknownLines)]) /\ Step /\ UNCHANGED game
+              /\ Emit([kind |-> "unknown", text |-> RandomElement(UnknownLines)]) /\ Step /\ UNCHANGED <<game, older>>
 
 EmitPosition(g) == Emit([kind |-> "position", text |-> PositionText(g), sp |-> g.sp, start |-> PosToJson(g.start),
                          hm |-> g.hm, fm |-> g.fm, moves |-> MoveTexts(g.ms)])
 SetGame(g) == /\ CmdPosition(g.start, g.ms, <<>>)
-              /\ game' = g /\ EmitPosition(g) /\ Step
+              /\ game' = g /\ older' = game /\ EmitPosition(g) /\ Step
 
 HmSet == {0, 1, 49, 50, 99, 100, 149}
 FmSet == {1, 2, 60, 255, 256, 300, 1000, 5949}
@@ -101,7 +102,7 @@ GenPositionShuffle ==
 
 EmitGo(g) == Emit([kind |-> "go", text |-> GoText(g), go |-> [x \in DOMAIN g \ {"order"} |-> g[x]]])
 CanonicalAnswer == <<[t |-> "bestmove", move |-> IF Legal(board) = {} THEN "0000" ELSE Uci(CHOOSE m \in Legal(board) : TRUE)]>>
-DoGo(g) == CmdGo(CanonicalAnswer) /\ EmitGo(g) /\ Step /\ UNCHANGED game
+DoGo(g) == CmdGo(CanonicalAnswer) /\ EmitGo(g) /\ Step /\ UNCHANGED <<game, older>>
 NoOrder == <<>>
 GenGoDepth == DoGo(GoRec(RandomElement(IF Profile = "determinism" THEN 1..4 ELSE IF Profile = "pressure" THEN {6, 7} ELSE 1..3),
                         -1, -1, -1, -1, -1, NoOrder))
@@ -158,31 +159,45 @@ DoublePushes(q) == {m \in Legal(q) : Kind(q.bd[m.from]) = P /\ (m.to - m.from = 
 EpCycleWith(m0) == WithCycle(game, CycleFrom(Apply(board, m0)), <<m0>>)
 GenPositionEpCycle == IF DoublePushes(board) = {} THEN GenPositionExtend ELSE EpCycleWith(RandomElement(DoublePushes(board)))
 
+\* A, B, A: the game of the position command before the current one is sent again, unchanged or extended
+\* (nothing of B may survive, and nothing may be "continued" from the first A)
+FinalOf(g) == LET h == GameFrom(g.start, g.ms) IN h[Len(h)]
+GenPositionAgain == SetGame(older)
+GenPositionAgainExt == SetGame([older EXCEPT !.ms = Extend(FinalOf(older), older.ms, RandomElement({1, 2}))])
+\* a LOOK-ALIKE of the current position as a new game: same placement and side to move, some castling rights
+\* and / or the en-passant square dropped.  Whatever the engine remembers about the original (a cached best
+\* move such as castling or an en-passant capture, a repetition count) must not be applied to the twin.
+TwinOf(q) == [sp |-> FALSE, start |-> q, hm |-> RandomElement({0, 1, 7}), fm |-> RandomElement({1, 9}), ms |-> <<>>]
+GenPositionTwin == LET tw == Weakenings(board) \ {board}
+                   IN IF tw = {} THEN GenPositionExtend ELSE SetGame(TwinOf(RandomElement(tw)))
+
 \* the same game one ply shorter (only the most recent position command counts)
 GenPositionBack == IF game.ms = <<>> THEN GenPositionExtend
                    ELSE SetGame([game EXCEPT !.ms = SubSeq(game.ms, 1, Len(game.ms) - 1)])
 
-GenQuit == CmdQuit /\ Emit([kind |-> "quit", text |-> "quit"]) /\ Step /\ UNCHANGED game
-GenEof == Eof /\ Emit([kind |-> "eof", text |-> ""]) /\ Step /\ UNCHANGED game
+GenQuit == CmdQuit /\ Emit([kind |-> "quit", text |-> "quit"]) /\ Step /\ UNCHANGED <<game, older>>
+GenEof == Eof /\ Emit([kind |-> "eof", text |-> ""]) /\ Step /\ UNCHANGED <<game, older>>
 
 \* The command kind is drawn FIRST (RandomElement), so that a simulation step evaluates one generator
 \* only; generators that need something special fall back to a plain extension when it is unavailable.
 Menu ==
   CASE Profile = "handshake" -> <<"uci", "isready", "isready", "newgame", "unknown", "unknown", "startpos", "extend", "godepth">>
     [] Profile = "go" -> <<"fen", "fen", "startpos", "extend", "extend", "newgame", "godepth", "gomovetime", "godm", "goclock",
-                           "goclock", "isready">>
-    [] Profile = "position" -> <<"fen", "fen", "startpos", "extend", "extend", "extend", "shuffle", "newgame", "godepth">>
-    [] Profile = "determinism" -> <<"fen", "startpos", "extend", "extend", "godepth", "godepth", "godepth">>
+                           "goclock", "isready", "twin", "twin", "again", "godepth">>
+    [] Profile = "position" -> <<"fen", "fen", "startpos", "extend", "extend", "extend", "shuffle", "newgame", "godepth",
+                                 "again", "again", "againx", "twin">>
+    [] Profile = "determinism" -> <<"fen", "startpos", "extend", "extend", "godepth", "godepth", "godepth", "twin", "again">>
     \* one long game near the opening searched deeply after every few moves, never a ucinewgame: the table
     \* grows to several hundred thousand entries (C13: whatever depends on the random hash keys - slot
     \* collisions, replacement, eviction - shows only under this pressure)
     [] Profile = "pressure" -> <<"extend", "godepth", "godepth">>
     [] Profile = "repetition" -> <<"startpos", "fen", "extend", "shuffle", "shuffle", "cycle", "cycle", "cycle", "cycle", "back",
-                                  "newgame", "rcycle", "rcycle", "epcycle">>
+                                  "newgame", "rcycle", "rcycle", "epcycle", "again", "twin">>
 Do(w) == CASE w = "uci" -> GenUci [] w = "isready" -> GenIsReady [] w = "newgame" -> GenNewGame [] w = "unknown" -> GenUnknown
            [] w = "startpos" -> GenPositionStartpos [] w = "fen" -> GenPositionFen [] w = "extend" -> GenPositionExtend
            [] w = "shuffle" -> GenPositionShuffle [] w = "cycle" -> GenPositionCycle [] w = "back" -> GenPositionBack
            [] w = "rcycle" -> GenPositionRCycle [] w = "epcycle" -> GenPositionEpCycle
+           [] w = "again" -> GenPositionAgain [] w = "againx" -> GenPositionAgainExt [] w = "twin" -> GenPositionTwin
            [] w = "godepth" -> GenGoDepth [] w = "gomovetime" -> GenGoMovetime [] w = "godm" -> GenGoDepthMovetime
            [] w = "goclock" -> GenGoClock [] w = "quit" -> GenQuit [] w = "eof" -> GenEof
 PickFor(k) == LET m == IF k >= MaxCmds THEN <<"quit", "eof">>
